@@ -51,7 +51,7 @@ def _resolve(t, base, rest):
 
 class Probe(Process):
     """Process with a generated ports schema; logs the states it is shown; returns a scripted update."""
-    defaults = {'timestep': 1.0, 'schema': {}, 'updates': []}
+    defaults = {'timestep': 1.0, 'schema': {}, 'updates': [], 'initial': None}
 
     def __init__(self, parameters=None):
         super().__init__(parameters)
@@ -60,6 +60,11 @@ class Probe(Process):
 
     def ports_schema(self):
         return copy.deepcopy(self.parameters['schema'])
+
+    def initial_state(self, config=None):
+        if self.parameters.get('initial') is not None:
+            return copy.deepcopy(self.parameters['initial'])
+        return super().initial_state(config)
 
     def next_update(self, timestep, states):
         self.seen.append(copy.deepcopy(states))
@@ -90,7 +95,7 @@ def gen_case(rng, tier):
     def var(q, default, node=None, must_init=False):
         variables.append({'q': list(q), 'default': default, 'must_init': must_init,
                           'node': list(node if node is not None else addr(topo, here, tuple(q)))})
-    families = ['plain', 'plain2', 'path', 'twoports', 'leafport', 'nested', 'glob', 'globpath', 'nestedglob']
+    families = ['plain', 'plain2', 'path', 'pathjoin', 'twoports', 'leafport', 'nested', 'glob', 'globpath', 'nestedglob']
     if depth > 0:
         families += ['up', 'up']
     chosen = [rng.choice(families) for _ in range(rng.choice([1, 2, 3]))]
@@ -112,6 +117,13 @@ def gen_case(rng, tier):
         elif fam == 'path':
             schema[p] = {'v': leaf(nxt()), 'w': leaf(nxt()), 'x': leaf(nxt())}
             topo[p] = {'_path': ('base%d' % i,), 'w': ('..', 'elsewhere%d' % i, 'w_renamed'), 'x': ('sub', 'x')}
+            for k in ('v', 'w', 'x'):
+                var((p, k), schema[p][k]['_default'])
+        elif fam == 'pathjoin':
+            # inside one '_path' dictionary two variables are wired to ONE node (and a third elsewhere)
+            d = nxt()
+            schema[p] = {'v': leaf(d), 'w': leaf(d), 'x': leaf(nxt())}
+            topo[p] = {'_path': ('pj%d' % i,), 'v': ('shared', 'x'), 'w': ('shared', 'x')}
             for k in ('v', 'w', 'x'):
                 var((p, k), schema[p][k]['_default'])
         elif fam == 'twoports':
@@ -266,6 +278,34 @@ def is_process_entry(k):
     return bool(k) and k[-1] in ('probe', 'probe2', 'owner')
 
 
+def composite_initial_state(case):
+    """a composite's initial_state() places each process's own initial values at the nodes its ports are wired to"""
+    from vivarium.core.composer import Composite
+    fails = []
+    probe, processes, topology, _, _, _ = build(case, with_initial=False)
+    nodes = {}
+    ini = {}
+    for v in case['variables']:
+        node = tuple(v['node'])
+        nodes.setdefault(node, 7000 + len(nodes))
+        tset(ini, tuple(v['q']), nodes[node])
+    probe.parameters['initial'] = ini
+    try:
+        comp = Composite({'processes': processes, 'topology': topology})
+        got = comp.initial_state()
+    except Exception as e:
+        return ['Composite.initial_state raised %s: %s' % (type(e).__name__, str(e)[:150])]
+    for node, want in nodes.items():
+        g = tget(got, node)
+        if g is KeyError or g != want:
+            fails.append("composite.initial_state(): node %s holds %r, the process's own initial value for it is %r"
+                         % (node, 'ABSENT' if g is KeyError else g, want))
+    extra = [k for k in flat(got) if k not in nodes and not is_process_entry(k) and flat(got)[k] != {}]
+    if extra:
+        fails.append('composite.initial_state() has values at %s where no port of the process is wired' % (extra[:3],))
+    return fails[:3]
+
+
 def check_case(case, prop):
     fails = []
     probe, processes, topology, initial, expected, incs = build(case)
@@ -294,6 +334,7 @@ def check_case(case, prop):
                                  'declared default %r' % (node, 'ABSENT' if got is KeyError else got, want))
         except Exception as e:
             fails.append('generate_state raised %s: %s' % (type(e).__name__, str(e)[:150]))
+        fails += composite_initial_state(case)
         return fails[:4]
     try:
         eng.update(1)
